@@ -1,1 +1,13 @@
-//! vh-model (stub)
+//! vh-model: the harness' own GraphQL model — type systems, documents, values,
+//! data worlds, generators and the reference executor R1. No dependency on the
+//! code under test.
+
+pub mod coerce;
+pub mod doc;
+pub mod exec;
+pub mod gen_doc;
+pub mod gen_ts;
+pub mod types;
+pub mod world;
+
+pub use types::{ArgDef, FieldDef, Kind, ScalarKind, Ty, TypeDef, TypeSystem, Val};
